@@ -170,6 +170,12 @@ def mirror(ctx, s):
             s.add("S-MIRROR", d1, "table", t, info["sp"], UNDECIDED,
                   "same key builder (%s) in index() and deindex, but one side draws its arguments from an iterator adaptor with a "
                   "closure: argument and condition agreement is not decided" % key_builder(ps[0][0]), b)
+        elif [k for k, _ in pk] != [k for k, _ in dk] and \
+                ("?" in [key_builder(k) for k, _, _, _ in ps] or "?" in [key_builder(k) for k, _, _, _ in ds]) and \
+                not ("?" in [key_builder(k) for k, _, _, _ in ps] and "?" in [key_builder(k) for k, _, _, _ in ds]):
+            s.add("S-MIRROR", d1, "key", t, info["sp"], UNDECIDED,
+                  "one of index() / deindex assembles the %s key without the table's key builder: that the key deleted is the key "
+                  "inserted is not decided" % t, b)
         elif [k for k, _ in pk] != [k for k, _ in dk]:
             s.add("S-MIRROR", d1, "key", t, info["sp"], VIOLATION,
                   "the key deleted from %s is not built like the key inserted (builder %s vs %s, or different arguments): "
@@ -208,6 +214,10 @@ def mirror(ctx, s):
             for v in vals:
                 if repr(v) in txt:
                     bad = True
+        if not kb:
+            s.add("S-COVER", ins, "every-tag-value-indexed", table, info["sp"], UNDECIDED,
+                  "the %s key is assembled without a key builder call: what the put depends on is not decided" % table, b)
+            continue
         s.add("S-COVER", ins, "every-tag-value-indexed", table, info["sp"], PROVED if (vals and not bad) else VIOLATION,
               "entries are written for every single-letter tag with a value, whatever the value is" if (vals and not bad) else
               "whether a tag is indexed in %s depends on its value: events carrying such values cannot be found (or replaced) through this table" % table, b)
@@ -396,7 +406,12 @@ def scan_builders(ctx, s, puts):
             elif order_ok and (z1 is None or z2 is None):
                 order_ok = None
         n += 1
-        if ok and order_ok:
+        if (want in (None, "?") or not names) and tbl == table:
+            # one side assembles its keys by hand (no key_* builder call): whether the bytes agree is not read off the calls
+            s.add("S-MIRROR", fn, "scan-bounds", itname, info["sp"], UNDECIDED,
+                  "the %s of %s are assembled without the table's key builder: that they bracket exactly the keys index() writes "
+                  "is not decided" % ("keys index() writes" if want in (None, "?") else "scan bounds", table), b)
+        elif ok and order_ok:
             s.add("S-MIRROR", fn, "scan-bounds", itname, info["sp"], PROVED,
                   "both bounds built by %s on table %s; start=(until, 00..), end=(since, ff..)" % (want, table), b)
         elif ok and order_ok is None:
